@@ -147,8 +147,38 @@ class SpecMixin:
         if f == "fs_text":
             p = Val.p(v(a[0]).t)
             return [Res(st, V(StrV(z3.Select(st.field("$fs_text"), p)), "str"))]
+        if f == "effect_before":     # every occurrence of effect a precedes the (single) occurrence of effect b
+            na, nb = a[0].value, a[1].value
+            pos_b = [i for i, e in enumerate(st.trace) if e.name == nb]
+            pos_a = [i for i, e in enumerate(st.trace) if e.name == na or na in e.inner]
+            if not pos_b:
+                return B(z3.BoolVal(len(pos_a) == 0))
+            return B(z3.BoolVal(all(i < pos_b[-1] for i in pos_a)))
+        if f == "at_effect":        # at_effect('name', expr): expr evaluated in the state right after the last such effect
+            name = a[0].value
+            es = [e for e in st.trace if e.name == name and e.st is not None]
+            if not es:
+                return [Res(st, V(fresh_val("noeff"), None))]
+            se = es[-1].st.copy(); se.env = dict(st.env)
+            return [Res(st, self.ev1(se, a[1]))]
+        if f == "parses_int":
+            return B(is_intstr(Val.s(v(a[0]).t)))
+        if f == "fs_read":          # text obtained by read_text (follows one level of symlink)
+            p = Val.p(v(a[0]).t)
+            q = z3.If(self.fk(st, p) == 3, self.ftarget(st, p), p)
+            return [Res(st, V(StrV(z3.Select(st.field("$fs_text"), q)), "str"))]
+        if f == "effect_result":
+            name = a[0].value
+            es = [e for e in st.trace if e.name == name]
+            if not es or es[-1].res is None:
+                return [Res(st, V(fresh_val("nores"), None))]
+            return [Res(st, es[-1].res)]
         if f in ("effect", "no_effect", "effect_count"):
             name = a[0].value
+            if any(name in e.inner for e in st.trace):
+                if f == "no_effect":
+                    return B(z3.BoolVal(False))
+                raise Unsupported(f"effect {name} occurs inside a loop: its count is not tracked")
             es = [e for e in st.trace if e.name == name]
             if f == "effect": return B(z3.BoolVal(len(es) > 0))
             if f == "no_effect": return B(z3.BoolVal(len(es) == 0))
